@@ -69,6 +69,13 @@ def r_transfer_source(ctx):
                                   row=atoms)
                 else:
                     ctx.ok(rid, loc(fi), f"input preparation | {atoms} -> {vkey(want)}")
+                if p.exit[0] == "return" and want == ("prep", [(D, H2)]):
+                    d2h = p.heap.get("state.ds2host", {}).get(D, {}).get(H1)
+                    h2d = p.heap.get("state.host2ds", {}).get(H1, {}).get(D)
+                    if d2h is not st("preparing") or h2d is not st("preparing"):
+                        ctx.violation(rid, fi.qual, loc(fi), "commanded transfer recorded in both views",
+                                      f"{atoms}: after commanding a transfer to the worker's host, host2ds[H1][D]={vkey(h2d)} ds2host[D][H1]={vkey(d2h)}; both must be `preparing` "
+                                      f"(the local-availability test reads host2ds: otherwise a second worker of that host commands a redundant transfer in the same round)", row=atoms)
                 # downgrade check
                 if p.exit[0] == "return":
                     after = p.heap.get("state.ds2host", {}).get(D, {})
